@@ -67,7 +67,10 @@ Theorem C10_insert_pinned_refuted :
   insert_pc_pinned 10 (fs10 aaaccccc) 3 (carr [98;98;98;98]) 4 = Fault OOBWrite /\
   insert_nc_pinned 10 (fs10 aaaccccc) 3 4 98 = Fault OOBWrite /\
   (exists count, count < M64 /\ insert_nc_pinned 10 (fs10 [97;98;99]) 1 count 97 = Fault OOBWrite).
-Proof. vm_compute. repeat split. exists 18446744073709551615. split; reflexivity. Qed.
+Proof.
+  split; [vm_compute; reflexivity|]. split; [vm_compute; reflexivity|].
+  exists 18446744073709551615. split; vm_compute; reflexivity.
+Qed.
 Print Assumptions C10_insert_pinned_refuted.
 
 (** FixedString<10>("abc").append( std::string("xyz"), 1) reads behind the source *)
@@ -125,7 +128,7 @@ Example C10_nonvacuous :
   | _ => False
   end.
 Proof.
-  split; [unfold CapOk, M64; split; discriminate|].
+  split; [split; [vm_compute; discriminate|vm_compute; reflexivity]|].
   split; [repeat split; vm_compute; try reflexivity; discriminate|].
   split; [repeat constructor; vm_compute; reflexivity|].
   vm_compute. reflexivity.
